@@ -3,20 +3,19 @@
 // Contracts for package server, read by /verif/govc. Comment-only file.
 package server
 
-// Shape of a transaction reply (RFC 7047 4.1.3): results are present up to and
-// including the first failed operation.
-//@ pred ResultShape(rs []*ovsdb.OperationResult) := forall i: int :: 0 <= i && i < len(rs) ==> (rs[i] != nil || (exists j: int :: 0 <= j && j < i && rs[j] != nil && rs[j].Error != ""))
-//@ pred AllOK(rs []*ovsdb.OperationResult) := forall i: int :: 0 <= i && i < len(rs) ==> (rs[i] != nil && rs[i].Error == "")
+// Object invariant of the server: registered monitors are never nil.
+//@ pred ServerWF(o *OvsdbServer) := o != nil && o.db != nil && (forall c: *rpc2.Client :: (c in o.monitors) ==> (o.monitors[c] != nil && (forall id: string :: (id in o.monitors[c].monitors) ==> o.monitors[c].monitors[id] != nil)))
 
 //@ func (*OvsdbServer).transact
 //@ requires o != nil && o.db != nil
-//@ ensures ResultShape(result0)
+//@ modifies operations[*]
+//@ ensures ResultShape(result0) && result1 != nil
 
 // Transact: the transaction lock is held across execution, notification and
 // commit (C17); monitors are notified exactly once, after execution and before
 // the commit, and only when no operation result carries an error (C02, C07).
 //@ func (*OvsdbServer).Transact
-//@ requires o != nil && reply != nil && o.db != nil
+//@ requires ServerWF(o) && reply != nil
 //@ at call server.(*OvsdbServer).transact requires wheld(o.txnMutex) >= 1 && calls("server.(*OvsdbServer).transact") == 0
 //@ at call server.(*OvsdbServer).processMonitors requires wheld(o.txnMutex) >= 1
 //@ at call server.(*OvsdbServer).processMonitors requires calls("server.(*OvsdbServer).transact") == 1 && calls("server.(*OvsdbServer).processMonitors") == 0 && calls("database.Database.Commit") == 0
@@ -25,23 +24,38 @@ package server
 //@ at call database.Database.Commit requires calls("server.(*OvsdbServer).processMonitors") == 1 && calls("database.Database.Commit") == 0
 //@ ensures calls("database.Database.Commit") == calls("server.(*OvsdbServer).processMonitors")
 //@ ensures calls("database.Database.Commit") <= 1
+//@ loop 1 invariant ServerWF(o)
 //@ loop 2 invariant forall j: int :: 0 <= j && j <= rangeindex ==> (response[j] != nil && response[j].Error == "")
 
 // ---- notification path: frames ---------------------------------------------
 
 //@ func (*OvsdbServer).processMonitors
-//@ requires o != nil
+//@ requires ServerWF(o)
+//@ requires update != nil
 //@ modifies nothing
 
+// RPC conformance (C01/C07): each notification method carries its own payload
+// format: update <- TableUpdates, update2 <- TableUpdates2, update3 <- id + TableUpdates2.
 //@ func (*monitor).Send
+//@ requires m != nil && update != nil
 //@ modifies nothing
+//@ at call rpc2.(*Client).Call requires arg1 == "update"
 //@ func (*monitor).Send2
+//@ requires m != nil && update != nil
 //@ modifies nothing
+//@ at call rpc2.(*Client).Call requires arg1 == "update2"
 //@ func (*monitor).Send3
+//@ requires m != nil && update != nil
 //@ modifies nothing
+//@ at call rpc2.(*Client).Call requires arg1 == "update3"
 //@ func (*monitor).filter
+//@ requires m != nil && update != nil
 //@ modifies nothing
 //@ func (*monitor).filter2
+//@ requires m != nil && update != nil
+//@ modifies nothing
+//@ func (*monitor).requested
+//@ requires m != nil
 //@ modifies nothing
 //@ func filterColumns
 //@ modifies nothing
